@@ -280,6 +280,9 @@ func clip(b []byte) string {
 
 var seqs = []string{"\x1b[0m", "\x1b[31m", "\x1b[1;32m", "\x1b[38;5;196m", "\x1b[2K", "\x1b[10;20H", "\x1b[3A", "\x1b[J", "\x1b[0;0f", "\x1b[1000D"}
 
+// bel switches the terminal bell (0x07) into the text alphabet.
+var bel = true
+
 func genStream(rt *rapid.T, k int, name string, cutInEsc bool) Stream {
 	var b []byte
 	alpha := alphabet(k)
@@ -314,6 +317,17 @@ func genStream(rt *rapid.T, k int, name string, cutInEsc bool) Stream {
 				line = append(line, r...)
 			case 2:
 				line = append(line, shared[rapid.IntRange(0, len(shared)-1).Draw(rt, "sh")])
+			case 4:
+				// the terminal bell, typically right behind a coloured word: "ESC[31mERROR BEL"
+				if bel && rapid.IntRange(0, 2).Draw(rt, "bel") == 0 {
+					if length < 3900 && rapid.Bool().Draw(rt, "bel-after-colour") {
+						line = append(line, rapid.SampledFrom(seqs).Draw(rt, "seq")...)
+						line = append(line, alpha[0], alpha[1])
+					}
+					line = append(line, 0x07)
+				} else {
+					line = append(line, alpha[2])
+				}
 			case 3:
 				if rapid.IntRange(0, 3).Draw(rt, "barecr") == 0 {
 					line = append(line, '\r')
